@@ -2,6 +2,7 @@
 incoming metadata is accepted), the expected outcome of every step, and what a client must see. -/
 import Tough.Driver.Util
 import Tough.Model.EditorSign
+import Tough.Model.Publish
 open Lean Tough.Driver Tough.Sig Tough.EditorSign
 
 def strField (j : Json) (k : String) : String :=
@@ -70,6 +71,72 @@ def implTree : Nat → Json → Json
         ("entries", ((optField n "doc").bind (optField · "entries")).getD Json.null),
         ("roles", implTree f (((optField n "doc").bind (optField · "roles")).getD (Json.arr #[])))])
     | _ => Json.arr #[]
+
+/-! the written directory according to `Tough/Model/Publish.lean` -/
+section Written
+open Tough.Client Tough.Publish
+
+def toRoles : List (DRole × Tgt) → Roles
+  | [] => .nil
+  | q :: rest => .cons q.1 q.2 (toRoles rest)
+
+def docOf (version : Nat) : TargetsDoc := ⟨version, 0, [], none, 0, []⟩
+
+/-- the accepted roles under `parent`, in the order they were added, each with its subtree -/
+def mkNodes (roles : List RoleIn) (accepted : List Bool) (curVersion : List Nat) : Nat → Option Nat → List (DRole × Tgt)
+  | 0, _ => []
+  | f + 1, parent => (List.range roles.length).filterMap fun ri => match roles[ri]? with
+    | some r => if r.parent == parent && accepted.getD ri false then
+        some (⟨r.name, r.keys, r.thr, r.targets⟩, Tgt.mk (docOf (curVersion.getD ri 0)) (toRoles (mkNodes roles accepted curVersion f (some ri))))
+      else none
+    | none => none
+
+def pre (v : Option Nat) : String := match v with | some n => s!"{n}." | none => ""
+
+def renderFile (stems : List String) : FileName → String
+  | .rootV n => s!"{n}.root.json"
+  | .timestamp => "timestamp.json"
+  | .snapshot v => pre v ++ "snapshot.json"
+  | .targets v => pre v ++ "targets.json"
+  | .role n v => pre v ++ stems.getD n "?" ++ ".json"
+
+def renderKey (names : List String) : MetaKey → String
+  | .targets => "targets.json"
+  | .role n => names.getD n "?" ++ ".json"
+
+def sortPairs (l : List (String × Nat)) : List (String × Nat) :=
+  l.foldr (fun s acc => (acc.filter (fun x => x.1 < s.1)) ++ [s] ++ (acc.filter (fun x => !(x.1 < s.1)))) []
+
+/-- compare the listing of the written directory with the model's `Signed.server` / `Signed.snapshot` /
+`Signed.timestamp`; returns (names and versions agree, every entry describes its file) -/
+def writtenAgrees (cs : Bool) (roles : List RoleIn) (accepted : List Bool) (curVersion : List Nat)
+    (topV snapV tsV : Nat) (names stems : List String) (listing : Json) : Bool × Bool :=
+  let root : Root := ⟨1, 0, cs, [], none, none, none, none, 0, []⟩
+  let p : Signed := ⟨root, Tgt.mk (docOf topV) (toRoles (mkNodes roles accepted curVersion 8 none)), snapV, 0, 0, [], tsV, 0, 0, []⟩
+  let ser : Ser := ⟨fun _ => 0, fun _ => 0⟩
+  let mfiles := sortStr ((p.server ser).map fun x => renderFile stems x.1)
+  let mmetas := sortPairs ((p.snapshot ser).metas.map fun x => (renderKey names x.1, x.2.version))
+  let pairs : List (String × String) :=
+    (renderKey names .targets, renderFile stems (.targets (versioned cs topV))) ::
+      (tgtNodes p.tree).map fun q => (renderKey names (nodeMeta ser q).1, renderFile stems (nodeFile ser cs q).1)
+  let ifiles : List (String × Json) := match optField listing "files" with | some (.obj o) => o.toList | _ => []
+  let imetas : List (String × Json) := match optField listing "snapshot_meta" with | some (.obj o) => o.toList | _ => []
+  let itm := (optField listing "timestamp_meta").getD Json.null
+  let ver (j : Json) (i : Nat) : Json := match j with | .arr a => a.getD i Json.null | _ => Json.null
+  let natOf (j : Json) : Nat := (j.getNat?.toOption).getD 0
+  let namesOk := sortStr (ifiles.map (·.1)) == mfiles &&
+    sortPairs (imetas.map fun x => (x.1, natOf (ver x.2 0))) == mmetas &&
+    natOf (ver itm 0) == snapV &&
+    (optField listing "timestamp_meta_keys") == some (Json.arr #["snapshot.json"])
+  let describes (m f : Json) : Bool := ver m 0 == ver f 2 && ver m 1 == ver f 0 && ver m 2 == ver f 1 && !(ver m 1).isNull && !(ver m 2).isNull
+  let descOk := pairs.all (fun (k, f) => match imetas.lookup k, ifiles.lookup f with
+      | some m, some fl => describes m fl
+      | _, _ => false) &&
+    (match ifiles.lookup (renderFile stems (.snapshot (versioned cs snapV))) with
+      | some fl => describes itm fl
+      | none => false)
+  (namesOk, descOk)
+end Written
 
 def handle (j : Json) : Except String Json := do
   let input ← j.getObjVal? "input"
@@ -191,10 +258,17 @@ def handle (j : Json) : Except String Json := do
   let entriesJ := entriesOf lengths digests
   let ifacts := (optField impl "facts").getD Json.null
   let treeOk := implTree 6 ((optField ifacts "roles").getD (Json.arr #[])) == treeOf roles accepted curVersion keyHex lengths digests 6 none && (optField ifacts "entries") == some (entriesJ top)
-  let agree := stepsAgree && ifinal == finalOk && (!finalOk || treeOk) &&
+  -- the written directory vs `Tough/Model/Publish.lean`
+  let stems := match optField input "role_file_stems" with | some (.arr a) => a.toList.map fun x => (match x with | Json.str s => s | _ => "") | _ => []
+  let roleNames := match optField input "role_names" with | some (.arr a) => a.toList.map fun x => (match x with | Json.str s => s | _ => "") | _ => []
+  let cs := optField input "cs" == some (Json.bool true)
+  let (writtenNames, writtenDesc) := match optField impl "listing" with
+    | some l => writtenAgrees cs roles accepted curVersion topVersion snapVersion tsVersion roleNames stems l
+    | none => (true, true)
+  let agree := stepsAgree && ifinal == finalOk && (!finalOk || (treeOk && writtenNames)) &&
     (if finalOk then iload == "ok" && ivers == natArr [1, tsVersion, snapVersion, topVersion] && iaccepted == accepted && irolev == curVersion && downloadsOk else true)
   -- the property: whatever the editor signed and wrote loads, describes the written files, and every listed target downloads
-  let spec := if ifinal then iload == "ok" && describes && (List.range nnames).all fun t =>
+  let spec := if ifinal then iload == "ok" && describes && (writtenDesc || !finalOk) && (List.range nnames).all fun t =>
       let d := downloads.getD t ""
       d == "unlisted" || d == "identical" || needsEscape.getD t false
     else true
